@@ -6,12 +6,13 @@ import re
 import typing as t
 
 import sansldap as L
-from sansldap._filter import FilterSyntaxError
 
 from vf import abs as A
 from vf.checks import c14
 from vf.engine import evid, par
 from vf.ref import filt
+
+FilterSyntaxError = A.lib("FilterSyntaxError")
 
 ALPHA = list("()&|!=~<>:*\\ a1.;-\n\x00é")
 assert len(ALPHA) == 21
